@@ -125,7 +125,10 @@ def classify_crash(rc, err):
     return "CRASH:rc%s" % rc
 
 
-def run_tool(argv, stdin=b"", timeout=60, env=None, cwd=None, stdin_file=None):
+HANG_RETRIES = [4]
+
+
+def run_tool(argv, stdin=b"", timeout=60, env=None, cwd=None, stdin_file=None, _retry=False):
     """Run a real binary; returns (status, stdout, stderr) with status an int exit code,
     'sig<N>' for a signal, or 'HANG'.  stdin_file: path to attach as fd 0 (regular file -> mmap path)."""
     try:
@@ -137,6 +140,11 @@ def run_tool(argv, stdin=b"", timeout=60, env=None, cwd=None, stdin_file=None):
             p = subprocess.run(argv, input=stdin, stdout=subprocess.PIPE, stderr=subprocess.PIPE, timeout=timeout,
                                env=env, cwd=cwd)
     except subprocess.TimeoutExpired as e:
+        # "did not finish in time" is only a verdict if it is not the machine that is slow: the run is repeated once with four times the
+        # limit (at most HANG_RETRIES[0] such repeats per check, so that a tree that really hangs everywhere does not take hours)
+        if HANG_RETRIES[0] > 0 and not _retry:
+            HANG_RETRIES[0] -= 1
+            return run_tool(argv, stdin, min(timeout * 4, 600), env, cwd, stdin_file, _retry=True)
         return "HANG", e.stdout or b"", e.stderr or b""
     st = p.returncode
     if st < 0:
